@@ -242,6 +242,11 @@ def k_chain(chk, tier):
     chk.sample({"kind": "handler-choice", "handlers": info[3][0], "selector": info[3][1], "chosen": info[3][2]["cls"]})
     detail = {"mismatches": [{"handlers": info[i][0], "selector": info[i][1], "impl": info[i][2]} for i in mism[:15]], "errors": err,
               "exceptions": unexpected_exc[:10]}
+    # a selector that makes the real chain crash or never return is a concrete failing input in its own right
+    for lname, sel, cls in unexpected_exc[:3]:
+        if cls != "EXC:NotServed":
+            chk.violation({"what": "HandlerMultiplexer.getHandler crashed or did not return for this selector: " + cls,
+                           "selector": sel, "handlers": lname, "tree": tree}, tag="chain-" + cls[4:])
     return bool(mism or err or unexpected_exc), detail
 
 
